@@ -2,7 +2,7 @@ SPECIFICATION Spec
 VIEW View
 CONSTANT Configs <- ConfigsBoth
 CONSTANT ClassNames <- ClassesAB
-CONSTANT Labels <- LabelsAll
+CONSTANT Labels <- LabelsGen
 CONSTANT MaxBatch = 1
 CONSTANT MaxAdds = 3
 CONSTANT TrackHist = TRUE
